@@ -414,7 +414,7 @@ func (n *not) Execute(searcher index.GetSearcher, seriesID common.SeriesID, tr *
 	if err != nil {
 		return nil, nil, err
 	}
-	list, listTS, err := n.Inner.Execute(searcher, seriesID, tr)
+	list, _, err := n.Inner.Execute(searcher, seriesID, tr)
 	if err != nil {
 		return nil, nil, err
 	}
@@ -422,10 +422,9 @@ func (n *not) Execute(searcher index.GetSearcher, seriesID common.SeriesID, tr *
 	if err != nil {
 		return nil, nil, err
 	}
-	err = allTS.Difference(listTS)
-	if err != nil {
-		return nil, nil, err
-	}
+	// The timestamps only bound the time range to scan and several documents may
+	// share one timestamp, so removing the timestamps of the excluded documents
+	// could drop the timestamp of a document that stays. Keep the superset.
 	return all, allTS, err
 }
 
